@@ -138,6 +138,31 @@ var c07Extra = []struct{ name, exit, prog string }{
 	{"go.outside-tagbody", "err-control", "(vtr 1) (go 7)"},
 	{"defun.implicit-block", "ret-from", "(defun c07ib# (vz) (vtr 1) (return-from c07ib# (vtr vz)) (vtr 2)) (c07ib# 5)"},
 	{"loop.implicit-nil-block", "ret-nil", "(block vb (dolist (vx (quote (1 2 3))) (vtr vx) (if (= vx 2) (return (vtr 9)))) (vtr 5))"},
+	// re-entry: the form that produced an exit is evaluated again (recursion from a cleanup form) while the exit
+	// is still on its way to its target; every function is called more than once (slip compiles a body lazily and
+	// shares the compiled forms between activations only after the first complete call)
+	{"reentry.cleanup-recursion.defun-block", "ret-from", "(defun c07re# (vn) (unwind-protect (return-from c07re# (vtr vn)) (if (> vn 0) (c07re# (- vn 1))))) (vtr (list (c07re# 1) (c07re# 2) (c07re# 2)))"},
+	{"reentry.cleanup-recursion.inner-block", "ret-from", "(defun c07re# (vn) (block vb (unwind-protect (return-from vb (vtr vn)) (if (> vn 0) (c07re# (- vn 1)))) (vtr 99))) (vtr (list (c07re# 1) (c07re# 2) (c07re# 2)))"},
+	{"reentry.cleanup-recursion.let", "ret-from", "(defun c07re# (vn) (let ((va (* vn 10))) (unwind-protect (return-from c07re# (vtr (+ va vn))) (if (> vn 0) (c07re# (- vn 1))) (vtr va)))) (vtr (list (c07re# 1) (c07re# 2) (c07re# 2)))"},
+	{"reentry.cleanup-recursion.dolist-return", "ret-nil", "(defun c07re# (vn) (dolist (vx (quote (1 2))) (unwind-protect (return (vtr (+ vn vx))) (if (> vn 0) (c07re# (- vn 1)))))) (vtr (list (c07re# 1) (c07re# 2) (c07re# 2)))"},
+	{"reentry.cleanup-recursion.dotimes-return", "ret-nil", "(defun c07re# (vn) (dotimes (vi 2) (unwind-protect (return (vtr (+ vn vi))) (if (> vn 0) (c07re# (- vn 1)))))) (vtr (list (c07re# 1) (c07re# 2) (c07re# 2)))"},
+	{"reentry.cleanup-recursion.do-return", "ret-nil", "(defun c07re# (vn) (do ((vi 0 (+ vi 1))) ((>= vi 2) 77) (unwind-protect (return (vtr (+ vn vi))) (if (> vn 0) (c07re# (- vn 1)))))) (vtr (list (c07re# 1) (c07re# 2) (c07re# 2)))"},
+	{"reentry.cleanup-recursion.nested-cleanups", "ret-from", "(defun c07re# (vn) (unwind-protect (unwind-protect (return-from c07re# (vtr vn)) (vtr (+ vn 100))) (if (> vn 0) (c07re# (- vn 1))) (vtr (+ vn 200)))) (vtr (list (c07re# 1) (c07re# 2) (c07re# 2)))"},
+	{"reentry.cleanup-recursion.multiple-values", "ret-from", "(defun c07re# (vn) (unwind-protect (return-from c07re# (values (vtr vn) (vtr (+ vn 10)))) (if (> vn 0) (c07re# (- vn 1))))) (vtr (list (multiple-value-list (c07re# 1)) (multiple-value-list (c07re# 2)) (multiple-value-list (c07re# 2))))"},
+	{"reentry.cleanup-recursion.go", "go-fwd", "(defun c07re# (vn) (let ((vr 0)) (tagbody (unwind-protect (go 7) (if (> vn 0) (c07re# (- vn 1)))) (vtr 98) 7 (setq vr (vtr vn))) vr)) (vtr (list (c07re# 1) (c07re# 2) (c07re# 2)))"},
+	{"reentry.cleanup-recursion.error", "err-caught", "(defun c07re# (vn) (unwind-protect (car (vtr vn)) (if (> vn 0) (ignore-errors (c07re# (- vn 1)))) (vtr (+ vn 100)))) (vtr (multiple-value-list (ignore-errors (c07re# 1)))) (vtr (multiple-value-list (ignore-errors (c07re# 2))))"},
+	{"reentry.lambda-recursion", "ret-from", "(defun c07re# (vn vf) (block vb (unwind-protect (return-from vb (vtr vn)) (if (> vn 0) (funcall vf (- vn 1) vf))))) (vtr (list (c07re# 1 (function c07re#)) (c07re# 2 (function c07re#)) (c07re# 2 (function c07re#))))"},
+	{"reentry.mapcar-same-form", "ret-from", "(defun c07re# (vn) (block vb (vtr 0) (return-from vb (vtr vn)) (vtr 99))) (vtr (mapcar (function c07re#) (quote (1 2 3)))) (vtr (mapcar (function c07re#) (quote (4 5))))"},
+	{"reentry.value-form-recursion", "ret-from", "(defun c07re# (vn) (if (< vn 1) 0 (return-from c07re# (+ (vtr vn) (c07re# (- vn 1)))))) (vtr (list (c07re# 2) (c07re# 3)))"},
+	// multiple values carried by an exit
+	{"mv.return-from", "ret-from", "(multiple-value-list (block vb (vtr 1) (return-from vb (values (vtr 2) (vtr 3))) (vtr 4)))"},
+	{"mv.return-from-through-let", "ret-from", "(multiple-value-list (block vb (vtr 1) (let ((va 1)) (return-from vb (values (vtr 2) (vtr 3)))) (vtr 4)))"},
+	{"mv.return-from-through-unwind-protect", "ret-from", "(multiple-value-list (block vb (unwind-protect (return-from vb (values (vtr 2) (vtr 3))) (vtr 4))))"},
+	{"mv.return-nil-block-dolist", "ret-nil", "(multiple-value-list (dolist (vx (quote (1 2))) (vtr vx) (return (values (vtr 2) (vtr 3)))))"},
+	{"mv.return-from-defun", "ret-from", "(defun c07mv# (vz) (return-from c07mv# (values (vtr vz) (vtr 3))) (vtr 4)) (multiple-value-bind (va vb) (c07mv# 2) (vtr (list va vb)))"},
+	{"mv.return-from-no-values", "ret-from", "(multiple-value-list (block vb (return-from vb (values))))"},
+	{"mv.block-normal-last", "normal", "(multiple-value-list (block vb (vtr 1) (values (vtr 2) (vtr 3))))"},
+	{"mv.unwind-protect-normal", "normal", "(multiple-value-list (unwind-protect (values (vtr 2) (vtr 3)) (vtr 4)))"},
 	{"error.class.division-by-zero", "err-type", "(vtr 1) (/ (vtr 1) 0)"},
 	{"error.class.unbound-variable", "err-type", "(vtr 1) (vtr vunboundvar)"},
 	{"error.class.undefined-function", "err-type", "(vtr 1) (vundefinedfn)"},
